@@ -269,7 +269,17 @@ def text_of(chunks):
     return ''.join(t for _, t in chunks)
 
 
+COLLIDING = [(1, '1'), (1.0, '1.0'), (True, 'true'), (0, '0'), (0.0, '0.0'), (False, 'false'), (2, '2'), (2.0, '2.0'), ('1', "'1'"), (None, 'null')]
+
+
 def value_for(k, rng_tag):
+    if rng_tag >= 100:
+        # palette of values that compare equal across types (1 == 1.0 == True ...): what a cache keyed by value confuses
+        return COLLIDING[(k * 3 + rng_tag) % len(COLLIDING)]
+    return _unique_value_for(k, rng_tag)
+
+
+def _unique_value_for(k, rng_tag):
     """Unique, attributable value for placeholder k: (python value, SQL literal spelling).  The kinds a
     client library really sends: integers (also negative), strings (also one that contains a `?`, which
     must not be taken for a placeholder again), floats, booleans, NULL."""
@@ -322,6 +332,8 @@ def gen_script(rng, nstmts):
             if rng.random() < 0.3:
                 s.append(['I'])
         s.append(['X'])
+        if rng.random() < 0.25:
+            s.append(['M'])       # the caller reuses (clears / overwrites) the list object it passed to execute_steps
         r = rng.random()
         if r < 0.85:
             s.append(['E*'])
@@ -348,7 +360,7 @@ def gen_scenario(seed):
                 ch, cat = g.statement()
                 if text_of(ch).count(MARK) <= 6:
                     break
-            stmts.append({'chunks': ch, 'cat': cat, 'tag': rng.randrange(8)})
+            stmts.append({'chunks': ch, 'cat': cat, 'tag': rng.randrange(8) if rng.random() < 0.8 else 100 + rng.randrange(10)})
         # one planner (one catalog) per session: use the largest catalog any of its statements needs
         rank = {'one': 0, 'two': 1, 'model': 2}
         top = max((st['cat'] for st in stmts), key=lambda c: rank[c])
@@ -518,8 +530,9 @@ class Session:
             if self.state != 'prepared':
                 return True
             self.steps, self.exec_err = [], None
+            self.vals_obj = [v for v, _ in self.values()]
             try:
-                self.gen = iter(self.planner.execute_steps([v for v, _ in self.values()]))
+                self.gen = iter(self.planner.execute_steps(self.vals_obj))
                 self.log.append('X ok')
             except Exception as e:
                 self.gen = None
@@ -528,6 +541,15 @@ class Session:
             self.state = 'executing'
             if self.exec_err is not None:
                 self._judge_execution(complete=True)
+            return True
+        if k == 'M':
+            vo = getattr(self, 'vals_obj', None)
+            if vo is not None:
+                n = len(vo)
+                vo[:] = ['reused-%d' % i for i in range(n)]
+                if n and self.pc % 2:
+                    vo.pop()
+            self.log.append('M')
             return True
         if k in ('E', 'E*'):
             if self.state != 'executing' or self.gen is None:
